@@ -50,6 +50,12 @@ CHECKS = {
          "late illegal messages must kill the connection on the next read; post-handshake ClientHello/HelloRequest/ServerHello/Finished/CCS must never start a second handshake; handshake calls on an open connection must raise ValueError.",
          "order only: content validity of same-typed replacements is C04/C05; stalls count as not completed",
          "DESIGN.md §4 C06"),
+ "C07": ("exploration",
+         "differential interoperability testing against OpenSSL (stdlib ssl on memory BIOs) over an enumerated (role, version, suite, key) matrix plus Hypothesis-drawn options",
+         "For every (tlslite role, TLS 1.0-1.3, suite in tlslite ∩ OpenSSL, server key type) and drawn options (group, client authentication, ALPN lists, resumption, payload sizes) the configuration is first shown to work tlslite<->tlslite and OpenSSL<->OpenSSL; "
+         "then tlslite-client<->OpenSSL-server and OpenSSL-client<->tlslite-server must complete, report the same version, cipher suite, ALPN protocol and session reuse, authenticate the client when asked, and carry multi-record payloads intact in both directions; a second connection attempts resumption.",
+         "OpenSSL randomness not seedable (configuration is the replay unit); SSLv3, SRP, external PSK, KeyUpdate, record_size_limit, heartbeat, anon and TLS 1.3 CCM suites are outside what the stdlib API reaches",
+         "DESIGN.md §4 C07"),
  "C08": ("exploration",
          "structure-aware mutation fuzzing through a well-keyed deviant peer + Hypothesis byte-level targets; oracle = exception-type / alert / closed / non-resumable / no-spin / bounded-memory clauses",
          "Every handshake message of 12 honest handshake flavours (SSLv3..TLS 1.3, RSA/DHE/ECDHE/anon/SRP, client auth, HRR, tickets, ALPN/NPN/SNI) is mutated before protection by a deviant peer (byte flips, truncation/extension with "
